@@ -15,7 +15,7 @@ META = {
     'required_obs': {'quick': ['flushes>=3', 'flush-at-exact-fit', 'remainder-chunk', 'crash-first', 'crash-middle', 'crash-last',
                                'prior-longer', 'prior-shorter', 'ocs-float', 'ocs-eq-record', 'ics-gt-rows', 'ics-1',
                                'invalid-config-tried', 'reported-size-compared', 'window', 'contract-evals-write_bytes',
-                               'contract-evals-buffer-invariant', 'one-data-object-many-configurations']},
+                               'contract-evals-buffer-invariant', 'one-data-object-many-configurations', 'cast-of-special-values']},
     'assumptions': ['crash points are flush boundaries (what the statement speaks of); a kill inside one write(2) is out of scope',
                     'origins carry explicit file_set_number / creation_time'],
     'technique': ('runtime monitoring + fault injection: flush-tap event log with on-disk snapshots, byte differential across '
@@ -32,6 +32,10 @@ def cases(tier, seed):
         yield {'stratum': 'matrix', 'index': k, 'kind': 'matrix'}
     for k in range(16 if tier == 'quick' else 300):
         yield {'stratum': 'crash', 'index': k, 'kind': 'crash'}
+    # a declared float -> integer cast of values the integer type cannot hold (NaN, infinities, huge values): whatever is
+    # done with them must not depend on how the rows are chunked
+    for k in range(16 if tier == 'quick' else 300):
+        yield {'stratum': 'matrix-cast-of-special-values', 'index': k, 'kind': 'matrix', 'cast_special': True}
     # one DLISFile and ONE caller-owned data object written several times, each time with other chunk sizes
     for k in range(30 if tier == 'quick' else 600):
         yield {'stratum': 'one-data-object-many-configurations', 'index': k, 'kind': 'shared'}
@@ -133,6 +137,15 @@ def run_case(case):
 
     if case['kind'] in ('matrix', 'default'):
         sp, mx = make_spec(r)
+        if case.get('cast_special'):
+            n_ = r.choice([8, 9, 12, 30])
+            for o in sp['ops']:
+                if o['op'] == 'channel':
+                    o['data']['shape'][0] = n_
+            ch_ = [o for o in sp['ops'] if o['op'] == 'channel'][-1]
+            ch_['data'] = {'dtype': '<f8', 'shape': [n_], 'layout': 'C', 'fill': {'kind': 'special', 'seed': r.randrange(50)}}
+            ch_['cast_dtype'] = {'$dtype': r.choice(['uint32', 'uint32', 'int32', 'uint16', 'int16']), 'as': 'type'}
+            bump('cast-of-special-values')
         rows = [o for o in sp['ops'] if o['op'] == 'channel'][0]['data']['shape'][0]
         full_rows = rows
         if rows > 2 and r.random() < 0.5:
